@@ -347,7 +347,7 @@ func c07CheckBin(r *Run, op string, a, b *big.Int) bool {
 				cs := &Case{Kind: "c07api", Sig: fmt.Sprintf("api:%s:%s:%s,%s%s", baseOp(op), kind, an[i], bn[j], ovf),
 					Args:     map[string]interface{}{"op": op, "a": a.String(), "b": b.String(), "ra": an[i], "rb": bn[j]},
 					Expected: m.String(), Actual: actual,
-					Detail:   fmt.Sprintf("%s(%s as %s, %s as %s)", op, a, an[i], b, bn[j])}
+					Detail: fmt.Sprintf("%s(%s as %s, %s as %s)", op, a, an[i], b, bn[j])}
 				if !r.Mismatch(cs) {
 					ok = false
 				}
